@@ -94,7 +94,7 @@ def parse_template(text):
                     # //@@ letexpr <file> <fn> <var> params=a:&T;b:U ret=r:TYPE [tags=..]
                     cur = Directive('letexpr', words[1], words[2] + ' ' + words[3], parse_opts([w for w in words[4:] if '=' in w]), i + 1)
                 elif head == 'fn':
-                    cur = Directive('fn', words[1], ' '.join(w for w in words[2:] if '=' not in w and w not in ('trusted', 'n5', 'n6', 'n7', 'n8')), parse_opts([w for w in words[2:] if '=' in w or w in ('trusted', 'n5', 'n6', 'n7', 'n8')]), i + 1)
+                    cur = Directive('fn', words[1], ' '.join(w for w in words[2:] if '=' not in w and w not in ('trusted', 'n5', 'n6', 'n7', 'n8', 'nopub')), parse_opts([w for w in words[2:] if '=' in w or w in ('trusted', 'n5', 'n6', 'n7', 'n8', 'nopub')]), i + 1)
                 elif head in ('type', 'const', 'alias', 'static', 'trait'):
                     d = Directive(head, words[1], words[2], parse_opts(words[3:]), i + 1)
                     out.append(('dir', d))
@@ -492,6 +492,12 @@ def build_fn(gen, d):
     sig = re.sub(r'([(,]\s*)_\s*:', _name_param, sig)
     if cnt[0]:
         gen.drops['R2_unnamed_params'] = gen.drops.get('R2_unnamed_params', 0) + cnt[0]
+    if 'nopub' in opts:
+        # V1: `pub` dropped from the extracted signature: the contract may then mention private fields and types of the same file
+        # (visibility has no run-time meaning)
+        sig, nsub = re.subn(r'^(\s*)pub(\([^)]*\))?\s+', r'\1', sig, count=1)
+        if nsub:
+            gen.drops['V1_pub_dropped'] = gen.drops.get('V1_pub_dropped', 0) + 1
     if emit_name:
         # CS: a case copy of the function under another name (the body, recursive calls included, is unchanged)
         sig, nsub = re.subn(r'\bfn\s+%s\b' % re.escape(name.split('::')[-1].split('>')[-1]), 'fn ' + emit_name, sig, count=1)
